@@ -712,8 +712,74 @@ def r04h(ck, prog):
         raise AnalysisBroken("R04h slot: line copy loop not found in read_file_stdin")
 
 
+def _ev_count(n, val):
+    """value of an integer / boolean expression in which every msa.numseq reads as val; None if anything else is read"""
+    x = n.strip(casts=True)
+    if x.cv is not None and x.k != "DeclRefExpr":
+        return x.cv
+    if x.k == "MemberExpr" and x.d.get("field") == "numseq" and x.d.get("rec") == "msa":
+        return val
+    if x.k == "UnaryOperator" and x.d["op"] in ("!", "-"):
+        v = _ev_count(x.kids[0], val)
+        return None if v is None else (int(not v) if x.d["op"] == "!" else -v)
+    if x.k == "BinaryOperator":
+        op = x.d["op"]
+        a, b = _ev_count(x.kids[0], val), _ev_count(x.kids[1], val)
+        if op == "&&":
+            return 0 if (a == 0 or b == 0) else (1 if a is not None and b is not None else None)
+        if op == "||":
+            return 1 if (a or b) else (0 if a is not None and b is not None else None)
+        if a is None or b is None:
+            return None
+        return {"<": a < b, ">": a > b, "<=": a <= b, ">=": a >= b, "==": a == b, "!=": a != b,
+                "+": a + b, "-": a - b, "*": a * b}.get(op, None) if op in ("<", ">", "<=", ">=", "==", "!=", "+", "-", "*") else None
+    return None
+
+
+def r04l(ck, prog):
+    """how many records there are is judged once, after all input files have been merged (kalign_essential_input_check in
+    kalign_run): kalign_read_input, which runs once per file on the accumulated msa, has no failure exit that is taken when
+    exactly one record has been read so far - otherwise {s1} + {s2, s3} is rejected while {s1, s2} + {s3} is accepted"""
+    K = prog.fn("kalign_read_input")
+    fns = [K]
+    for c in K.body.calls():
+        H = prog.fn(prog.resolve(c.callee, K.file), required=False) if c.callee else None
+        if H is not None and H.body is not None and H.static and H.file == K.file and H not in fns and \
+                any("struct msa" in (p_["ty"] or "") for p_ in H.params) and H.name not in ("read_fasta", "read_msf", "read_clu"):
+            fns.append(H)
+    n = 0
+    for F in fns:
+        exits = [g for g in F.body.find("GotoStmt")] + [r for r in F.body.find("ReturnStmt") if r not in F.success_returns()]
+        for e in exits:
+            gs = [(c, pol) for c, pol in guards(e) if any(m.k == "MemberExpr" and m.d.get("field") == "numseq" and m.d.get("rec") == "msa" for m in c.walk())]
+            if not gs:
+                continue
+            n += 1
+            where = site(prog, e, "exit")
+            vals = []
+            for c, pol in gs:
+                v = _ev_count(c, 1)
+                vals.append(None if v is None else (bool(v) == pol))
+            ck.inst("R04l", where, "%s: failure exit under %s; taken with one record so far: %s" % (
+                F.name, " and ".join(("" if pol else "not ") + c.text()[:30] for c, pol in gs), vals), prog.config)
+            if all(v is True for v in vals):
+                ck.violation("R04l", "R04l/%s/one-record" % F.name, where,
+                             "%s fails when the records read so far number exactly one (%s); it runs after every input file, so a first "
+                             "file holding a single sequence is rejected although more files follow - the same records in one file, or "
+                             "split otherwise, are accepted" % (F.name, " and ".join(("" if pol else "not ") + c.text()[:30] for c, pol in gs)),
+                             prog.config)
+            elif any(v is None for v in vals):
+                raise AnalysisBroken("R04l: a failure exit of %s depends on the record count in a way that is not understood" % F.name)
+    E = prog.fn("kalign_essential_input_check")
+    if not any(_ev_count(c, 1) is not None for i in E.body.find("IfStmt") for c in [i.child("cond")]):
+        raise AnalysisBroken("R04l slot: the test of the record count in kalign_essential_input_check was not found")
+    ck.floor("R04l", n, 1, "count-dependent failure exits on the per-file path")
+
+
 def run(ck, progs):
     describe(ck)
+    ck.rule("R04l", "no failure exit of kalign_read_input (run once per input file) is taken for exactly one record read so far; the count is judged after the merge")
+    ck.rule("R04k", "input positions are numbered once, over the merged set of records (= R01b): msa_seq.rank is assigned a position only by the input check that runs after all files are read, so records split over several files keep one numbering")
     ck.rule("R04h", "read_file_stdin reads whole physical lines (no fixed-size line buffer) and keeps all bytes up to the first control character")
     ck.rule("R04g", "no reader treats an absolute line number as special: loops over the input lines never break unconditionally")
     for cfg, prog in progs.items():
@@ -726,6 +792,8 @@ def run(ck, progs):
         ck.attempt(r04c, ck, prog)
         ck.attempt(r04g, ck, prog)
         ck.attempt(r04h, ck, prog)
+        ck.borrow(c01.r01b, prog, "R04k", ("R01b",))
+        ck.attempt(r04l, ck, prog)
     return ("Sibling cross-check of the three readers' classification chains (predicate, actions, histogram, same "
             "character); span of every loop over msa_seq.gaps and coverage of the totals deciding the alignment status; "
             "who assigns ALN_STATUS_UNALIGNED; who touches gaps before the merge phase; stores into kalign_read_input's "
